@@ -8,6 +8,23 @@ _NOTE = ('trusted base: the simulator itself (SimLoop, SimKernel, fake ZeroMQ) '
 _TECH = 'deterministic simulation with fault injection'
 
 META = {
+    'C17': {
+        'level': 'exploration',
+        'text': 'watchers with collecting stdout/stderr streams and 1-4 '
+                'concurrent writer workers on real os.pipe pairs registered '
+                'with a real epoll; seeded write plans (1 B .. 70 kB chunks '
+                'around the Redirector buffer and the pipe capacity, delays, '
+                'early channel close, exit right after the last write) with '
+                'position-identifiable content, sibling kills, incr/decr, '
+                'step costs that make draining span periodic checks; every '
+                'record is checked to be a labelled prefix of what its '
+                'writer wrote, completeness at quiescence, EOF handling, '
+                'handler invocation counts, descriptor accounting '
+                '(/proc/self/fd) and Redirector bookkeeping',
+        'note': _NOTE + '; descriptor numbers are reused as in production '
+                '(the simulated worker keeps its write ends at high numbers)',
+        'technique': _TECH + ' (real pipes and epoll under the seeded '
+                     'scheduler, byte-level prefix oracle)'},
     'C20': {
         'level': 'exploration',
         'text': 'FileStream driven on a real scratch directory with a '
